@@ -282,7 +282,7 @@ Section Weights.
       match prc with
       | CC => Ok []
       | _ =>
-        let w := nc_weights nf pv true in
+        let w := nc_weights nf pv false in      (* every light quark couples, as in the massive kernel (fix of C08) *)
         do _ <- imp "asy";
         oseq (map (fun r => mk "asy" ("Asy" ++ nstr r ++ "LLNonSinglet") (nc_ns w) nf ihq)
                  (List.seq 0 (S (Z.to_nat pto_evol))))
